@@ -302,3 +302,69 @@ pub fn neighbours(v: &Val, ty: &Ty, out: &mut Vec<Val>, budget: usize) {
 pub fn all_uint_widths() -> &'static [u16] {
     &UINT_WIDTHS
 }
+
+/// A type that `v` also inhabits although it differs nominally from `ty`: some component type
+/// of which `v` carries no evidence (payload of `None`, the absent side of an `Either`, the
+/// element type of an empty list or array) is replaced by another type. `None` if `v` shows all
+/// of its type.
+pub fn evidence_free_retype(t: &mut Tape, v: &Val, ty: &Ty) -> Option<Ty> {
+    fn other(a: &Ty) -> Ty {
+        match a.resolved_head() {
+            Ty::UInt(8) => Ty::UInt(16),
+            Ty::UInt(16) => Ty::UInt(32),
+            Ty::Bool => Ty::UInt(1),
+            _ => Ty::UInt(8),
+        }
+    }
+    fn go(t: &mut Tape, v: &Val, ty: &Ty, depth: usize) -> Option<Ty> {
+        if depth > 6 {
+            return None;
+        }
+        match (v, ty.resolved_head()) {
+            (Val::None, Ty::Option(a)) => Some(Ty::option(other(a))),
+            (Val::Some(x), Ty::Option(a)) => go(t, x, a, depth + 1).map(Ty::option),
+            (Val::Left(x), Ty::Either(a, b)) => {
+                if t.bool() {
+                    Some(Ty::either((**a).clone(), other(b)))
+                } else {
+                    go(t, x, a, depth + 1).map(|a2| Ty::either(a2, (**b).clone())).or_else(|| Some(Ty::either((**a).clone(), other(b))))
+                }
+            }
+            (Val::Right(x), Ty::Either(a, b)) => {
+                if t.bool() {
+                    Some(Ty::either(other(a), (**b).clone()))
+                } else {
+                    go(t, x, b, depth + 1).map(|b2| Ty::either((**a).clone(), b2)).or_else(|| Some(Ty::either(other(a), (**b).clone())))
+                }
+            }
+            (Val::List(xs), Ty::List(a, n)) => {
+                if xs.is_empty() {
+                    Some(Ty::list(other(a), *n))
+                } else {
+                    None
+                }
+            }
+            (Val::Array(xs), Ty::Array(a, n)) => {
+                if xs.is_empty() {
+                    Some(Ty::array(other(a), *n))
+                } else {
+                    None
+                }
+            }
+            (Val::Tuple(xs), Ty::Tuple(ts)) => {
+                let start = if xs.is_empty() { 0 } else { t.index(xs.len()) };
+                for k in 0..xs.len() {
+                    let i = (start + k) % xs.len();
+                    if let Some(n) = go(t, &xs[i], &ts[i], depth + 1) {
+                        let mut ts2 = ts.clone();
+                        ts2[i] = n;
+                        return Some(Ty::Tuple(ts2));
+                    }
+                }
+                None
+            }
+            _ => None,
+        }
+    }
+    go(t, v, ty, 0).filter(|n| !n.same(ty))
+}
